@@ -66,6 +66,10 @@ type pcase struct {
 	IncD int      `json:"incd,omitempty"` // destination increment
 	Offs []int    `json:"offs,omitempty"` // start indices ix, iy, idst
 	Cls  []string `json:"cls,omitempty"`  // value classes
+	// complex families whose components are extended integers (prefix Z, see cplxz.go)
+	Opn []int   `json:"opn,omitempty"` // positions whose value the specification leaves open
+	WK  []int64 `json:"wk,omitempty"`  // NOT accepted: the value of one named departure (own signature)
+	CZ  bool    `json:"cz,omitempty"`  // set by the harness when it strips the prefix Z
 	// set when a failure case is replayed alone
 	Only string `json:"only,omitempty"` // binding name
 	Off  *int   `json:"off,omitempty"`
@@ -505,6 +509,11 @@ func replay(in *core.Lines, args []string, seed int64, sum *core.Summary) error 
 		}
 		// the "pairs of specials" families (suffix P) use the bindings of the base function
 		c.F = strings.TrimSuffix(c.F, "P")
+		// component special values in complex slices (prefix Z): the bindings of the base family,
+		// compared by the rules of cplxz.go
+		if strings.HasPrefix(c.F, "ZC") {
+			c.F, c.CZ = strings.TrimPrefix(c.F, "Z"), true
+		}
 		before := sum.Cases
 		if b, ok := vec64[c.F]; ok {
 			runVec(r, &c, b, 0)
